@@ -3,10 +3,10 @@
    Statements only; proofs in Proofs.IsoBitsProofs.  The claim is about chython/algorithms/_isomorphism.pyx AS SOURCE
    (run through a transpiler by the check; the compiled extension cannot be built here). *)
 From Coq Require Import ZArith List Bool String.
-From Model Require Import PyBase PeriodicTable IsoBits IsoBitsExt IsoBitsPyx IsoBitsFuel IsoBitsDict.
+From Model Require Import PyBase PeriodicTable IsoBits IsoBitsExt IsoBitsPyx IsoBitsFuel IsoBitsDict IsoBitsGuard.
 From Model Require Iso.
 From Gen Require Import Elements IsoClosure IsoGuard IsoCand IsoRefCand IsoDescend IsoYield IsoInit.
-From Proofs Require Import IsoBitsProofs IsoBitsSearchProofs IsoBitsExtProofs IsoClosureTie IsoBitsPyxProofs IsoBitsFuelProofs IsoGuardTie IsoCandTie IsoBitsRangeProofs IsoRefCandTie IsoDescendTie IsoYieldTie IsoInitTie.
+From Proofs Require Import IsoBitsProofs IsoBitsSearchProofs IsoBitsExtProofs IsoClosureTie IsoBitsPyxProofs IsoBitsFuelProofs IsoGuardTie IsoCandTie IsoBitsRangeProofs IsoRefCandTie IsoDescendTie IsoYieldTie IsoInitTie IsoBitsGuardProofs.
 Import ListNotations.
 Open Scope Z_scope.
 
@@ -287,14 +287,19 @@ Print Assumptions C09_source_struct_layouts_agree.
 
 (* MORE OF THE SOURCE, regenerated on every run by tools/gen_isoguard.py into Gen.IsoGuard (statement by statement: `if` ->
    if/then/else, assignment -> let, any()/all() over the atoms -> existsb/forallb, `is None` -> match on the option):
-   the guard `if _cython and any(a.implicit_hydrogens is None ...): _cython = False` and the selection of `components` in
-   QueryIsomorphism.get_mapping are exactly uses_mask_path of the model (so C09_get_mapping_equiv / C09_public_get_mapping_equiv
-   speak about the guard as it is written in the source now), the scope array of the inner get_mapping is scope_bits, and the
+   the guard statements of QueryIsomorphism.get_mapping (since d9d8bf3 two: unknown hydrogens; ring sizes above 65 in the molecule or in a
+   non-AnyMetal query atom) and the selection of `components` are exactly uses_mask_path2 of Model.IsoBitsGuard (so
+   C09_public_get_mapping2_equiv speaks about the guard as it is written in the source now), the scope array of the inner get_mapping is scope_bits, and the
    offset bookkeeping (start / closures / q_from / q_to, start / o_from / o_to) of the two buffer writers yields the
    closure / from_ / to_ fields of enc_query and enc_mol. *)
-Theorem C09_source_guard_is_model : forall cython rm,
-  g_guard_test cython rm = cython && has_unknown_h rm /\ g_uses_mask_path cython rm = uses_mask_path cython rm.
-Proof. intros. split; [apply g_guard_test_is_model|apply g_uses_mask_path_is_model]. Qed.
+Theorem C09_source_guard_is_model : forall cython comps rm,
+  g_guard_test_1 cython comps rm = cython && has_unknown_h rm /\
+  g_guard_test_2 cython comps rm = cython && (big_ring_mol rm || big_ring_query comps) /\
+  g_uses_mask_path cython comps rm = uses_mask_path2 cython comps rm.
+Proof.
+  intros. destruct (g_guard_tests_are_model cython comps rm) as [H1 H2].
+  split; [exact H1|split; [exact H2|apply g_uses_mask_path_is_model]].
+Qed.
 Print Assumptions C09_source_guard_is_model.
 
 Theorem C09_source_scope_array_is_model : forall rm s, g_scope_bits rm s = scope_bits rm s.
@@ -513,11 +518,12 @@ Theorem C09_fuel_examples :
 Proof. exact fuel_examples. Qed.
 Print Assumptions C09_fuel_examples.
 
-(* THE RING-SIZE HYPOTHESIS IS NECESSARY (known finding ring-size-above-65).  The equivalence theorems assume ring sizes 3..65 on both
-   sides.  Outside, the statement is FALSE for the faithful model of the current code: both encoders drop ring sizes above 65 and encode
-   "only such sizes" as ring-free.  Witnesses inside every other hypothesis; replayed on the real code:
-   smarts('[C;r66]') on smiles('CCC'): 3 mappings accelerated, none with _cython=False. *)
-Theorem C09_ring_size_above_65_refuted :
+(* THE RING-SIZE HYPOTHESIS OF THE COMPONENT-LEVEL THEOREMS IS NECESSARY (finding ring-size-above-65, FIXED at the public level by
+   d9d8bf3: see C09_public_get_mapping2_equiv below).  This is a statement about the ENCODERS and ONE COMPONENT CALL only
+   (mask_match_first / component_mappings, which know nothing of the second guard statement): both encoders drop ring sizes above 65
+   and encode "only such sizes" as ring-free, so C09_mask_search_equiv / C09_get_mapping_equiv keep their hypothesis ring sizes 3..65.
+   The public call no longer reaches the encoders with such inputs. *)
+Theorem C09_component_ring_size_above_65_refuted :
   query_ok (QElem 6 None (no_x [0])) = true /\ atom_ok (set_rings c_ring66 [65]) = true /\ elem_hyp (QElem 6 None (no_x [0])) 6 /\
   match_atom (QElem 6 None (no_x [0])) c_ring66 = false /\
   mask_match_first (enc_qatom (QElem 6 None (no_x [0])) None) (enc_atom c_ring66) = true /\
@@ -533,4 +539,58 @@ Theorem C09_ring_size_above_65_refuted :
   wf_molb [mkRA 1 (set_rings (mkLA 6 None 0 false 0 1 (Some 4) 0 []) [65]) []] = true /\
   component_mappings true rq rm [true] 10 = Some [[(1, 1)]] /\ component_mappings false rq rm [true] 10 = Some [].
 Proof. exact ring_size_above_65_refuted. Qed.
-Print Assumptions C09_ring_size_above_65_refuted.
+Print Assumptions C09_component_ring_size_above_65_refuted.
+
+(* THE TWO PUBLIC CALLS SINCE d9d8bf3 (second guard statement).  public_get_mapping2 = the guard as translated from the source
+   (uses_mask_path2: flag, no unknown hydrogen count, no ring size above 65 in the molecule or in a non-AnyMetal query atom) + the
+   wrapper of C09_public_get_mapping_equiv.  NO UPPER BOUND ON RING SIZES any more: the hypotheses are those of
+   C09_public_get_mapping_equiv for the inputs with every ring size above 65 replaced by 65 (cap_comps / cap_mol), i.e. everything
+   except `ring size <= 65`, which the guard now discharges.  (C09_public_get_mapping_equiv above remains as the statement about the
+   wrapper under a given effective flag.) *)
+Theorem C09_public_get_mapping2_equiv : forall stereo_ok comps rm tcomps flt scope fuel,
+  Forall (fun rq => rq <> [] /\ wf_query rq /\ in_range_pair rq (cap_mol rm)) (cap_comps comps) ->
+  (has_unknown_h rm = false -> wf_mol (cap_mol rm)) ->
+  public_get_mapping2 stereo_ok true comps rm tcomps flt scope fuel =
+  public_get_mapping2 stereo_ok false comps rm tcomps flt scope fuel.
+Proof. exact public_get_mapping2_equiv. Qed.
+Print Assumptions C09_public_get_mapping2_equiv.
+
+Theorem C09_public_get_mapping2_equiv_b : forall stereo_ok comps rm tcomps flt scope fuel,
+  public_hyps_ok (cap_comps comps) (cap_mol rm) = true ->
+  public_get_mapping2 stereo_ok true comps rm tcomps flt scope fuel =
+  public_get_mapping2 stereo_ok false comps rm tcomps flt scope fuel.
+Proof. exact public_get_mapping2_equiv_b. Qed.
+Print Assumptions C09_public_get_mapping2_equiv_b.
+
+(* a ring size above 65 anywhere: the reference path under both flags, no hypothesis at all *)
+Theorem C09_big_ring_takes_reference_path : forall stereo_ok cython comps rm tcomps flt scope fuel,
+  big_ring_mol rm || big_ring_query comps = true ->
+  uses_mask_path2 cython comps rm = false /\
+  public_get_mapping2 stereo_ok cython comps rm tcomps flt scope fuel = public_get_mapping stereo_ok false comps rm tcomps flt scope fuel.
+Proof. exact big_ring_takes_reference_path. Qed.
+Print Assumptions C09_big_ring_takes_reference_path.
+
+Theorem C09_public_get_mapping2_equiv_fuel_free : forall stereo_ok comps rm tcomps flt scope f1 f2,
+  Forall (fun rq => rq <> [] /\ wf_query rq /\ in_range_pair rq (cap_mol rm)) (cap_comps comps) ->
+  (has_unknown_h rm = false -> wf_mol (cap_mol rm)) ->
+  (public_fuel comps rm <= f1)%nat -> (public_fuel comps rm <= f2)%nat ->
+  public_get_mapping2 stereo_ok true comps rm tcomps flt scope f1 =
+  public_get_mapping2 stereo_ok false comps rm tcomps flt scope f2.
+Proof. exact public_get_mapping2_equiv_fuel_free. Qed.
+Print Assumptions C09_public_get_mapping2_equiv_fuel_free.
+
+(* non-vacuity = the repaired witnesses: [C;!R] vs an atom of a 66-ring, [C;r66] vs a chain atom: hypotheses hold, both flags take
+   the reference path and yield nothing (the wrapper forced onto the mask path would still yield a mapping); an ordinary input still
+   takes the mask path *)
+Theorem C09_public_get_mapping2_example :
+  public_hyps_ok (cap_comps br_comps) (cap_mol br_rm) = true /\ uses_mask_path2 true br_comps br_rm = false /\
+  public_get_mapping2 (fun _ => true) true br_comps br_rm [[1]] true None 10 = [] /\
+  public_get_mapping2 (fun _ => true) false br_comps br_rm [[1]] true None 10 = [] /\
+  public_get_mapping (fun _ => true) true br_comps br_rm [[1]] true None 10 = [[(1, 1)]] /\
+  public_hyps_ok (cap_comps br_comps2) (cap_mol br_rm2) = true /\ uses_mask_path2 true br_comps2 br_rm2 = false /\
+  public_get_mapping2 (fun _ => true) true br_comps2 br_rm2 [[1]] true None 10 = [] /\
+  public_get_mapping (fun _ => true) true br_comps2 br_rm2 [[1]] true None 10 = [[(1, 1)]] /\
+  uses_mask_path2 true ex2_comps ex2_rm = true /\
+  public_get_mapping2 (fun _ => true) true ex2_comps ex2_rm [[1; 2]; [3]] true None 100 = [[(1, 3); (2, 2)]].
+Proof. exact public_get_mapping2_example. Qed.
+Print Assumptions C09_public_get_mapping2_example.
